@@ -202,35 +202,6 @@ Proof.
     repeat apply conj; auto; try lia.
 Qed.
 
-(* ---- two vectors --------------------------------------------------------------------------------------------- *)
-Notation step2 := (RVModel.step2 mva mvc smv).
-Notation run2 := (RVModel.run2 mva mvc smv).
-Definition wf2 (p : vec * vec) : Prop := wf (fst p) /\ wf (snd p).
-Definition abs2 (p : vec * vec) : list Z * list Z := (abs (fst p), abs (snd p)).
-
-Lemma step2_post p o : wf2 p -> ok2 (abs2 p) o = true ->
-  wf2 (step2 p o) /\ abs2 (step2 p o) = spec_step2 (abs2 p) o.
-Proof.
-  destruct p as [a b]. intros [Wa Wb] Hok. unfold abs2, wf2 in *. cbn [fst snd] in *.
-  destruct o; cbn [RVModel.step2 spec_step2 ok2 fst snd] in *.
-  - rewrite abs_length in Hok. destruct (step_post a o Wa Hok) as (W1 & A1 & _). rewrite A1. auto.
-  - rewrite abs_length in Hok. destruct (step_post b o Wb Hok) as (W1 & A1 & _). rewrite A1. auto.
-  - auto.
-  - destruct (assign_range_post a (abs b) Wa) as (W1 & A1 & _). rewrite A1. auto.
-  - destruct (assign_range_post b (abs a) Wb) as (W1 & A1 & _). rewrite A1. auto.
-  - destruct (clear_post a Wa) as (W1 & A1 & _). rewrite A1. auto.
-  - destruct (clear_post b Wb) as (W1 & A1 & _). rewrite A1. auto.
-Qed.
-
-Lemma run2_post : forall ops p, wf2 p -> valid2 (abs2 p) ops = true ->
-  wf2 (run2 p ops) /\ abs2 (run2 p ops) = fold_left spec_step2 ops (abs2 p).
-Proof.
-  induction ops as [|o t IH]; intros p W V; cbn [RVModel.run2 fold_left valid2] in *; auto.
-  apply andb_prop in V. destruct V as [V1 V2].
-  destruct (step2_post p o W V1) as (W1 & A1).
-  rewrite <- A1 in *. apply IH; auto.
-Qed.
-
 (* ---- clear ---------------------------------------------------------------------------------------------------- *)
 Lemma clear_keeps s : wf s ->
   wf (clear s) /\ abs (clear s) = [] /\ size (clear s) = 0 /\ cap (clear s) = cap s /\ csize (clear s) = csize s /\
@@ -275,6 +246,68 @@ Qed.
 
 Lemma wf_empty : wf empty_vec.
 Proof. constructor; cbn; auto; intros; lia. Qed.
+
+(* ---- two vectors --------------------------------------------------------------------------------------------- *)
+Notation step2 := (RVModel.step2 mva mvc smv).
+Notation run2 := (RVModel.run2 mva mvc smv).
+Definition wf2 (p : vec * vec) : Prop := wf (fst p) /\ wf (snd p).
+Definition abs2 (p : vec * vec) : list Z * list Z := (abs (fst p), abs (snd p)).
+
+Lemma reborn_post s : wf s -> wf (reborn s) /\ abs (reborn s) = [].
+Proof.
+  intros W. destruct (destroy_all_balance s W) as (E & N & P). unfold reborn. split; [|reflexivity].
+  constructor; cbn [size csize cap cells err nctor ndtor nalloc]; auto; try lia. intros; lia.
+Qed.
+
+Lemma range_ctor_post r vs : wf r -> wf (range_ctor r vs) /\ abs (range_ctor r vs) = vs.
+Proof.
+  intros [W1 W2 W3 W4 W5 W6]. unfold range_ctor. split.
+  - constructor; cbn [size csize cap cells err nctor ndtor nalloc]; auto; try lia.
+    + intros j Hj. rewrite ltb_true by lia. auto.
+    + intros j Hj. rewrite ltb_false by lia. auto.
+  - apply abs_eq_spec; cbn [size csize cap cells err nctor ndtor nalloc]; auto.
+    intros j Hj. rewrite ltb_true by lia. reflexivity.
+Qed.
+
+Lemma step2_post p o : wf2 p -> ok2 (abs2 p) o = true ->
+  wf2 (step2 p o) /\ abs2 (step2 p o) = spec_step2 (abs2 p) o.
+Proof.
+  destruct p as [a b]. intros [Wa Wb] Hok. unfold abs2, wf2 in *. cbn [fst snd] in *.
+  destruct (reborn_post a Wa) as (Wra & Ara). destruct (reborn_post b Wb) as (Wrb & Arb).
+  destruct o; cbn [RVModel.step2 spec_step2 ok2 fst snd] in *;
+    unfold move_ctor, move_xctor_same, move_xctor_diff, move_assign_same, swap_vec, flip;
+    rewrite ?b_move_ctor_swaps, ?b_move_xctor_assigns, ?b_move_assign_swaps, ?b_swap_exchanges_all; cbn [fst snd].
+  - rewrite abs_length in Hok. destruct (step_post a o Wa Hok) as (W1 & A1 & _). rewrite A1. auto.
+  - rewrite abs_length in Hok. destruct (step_post b o Wb Hok) as (W1 & A1 & _). rewrite A1. auto.
+  - auto.
+  - destruct (assign_range_post a (abs b) Wa) as (W1 & A1 & _). rewrite A1. auto.
+  - destruct (assign_range_post b (abs a) Wb) as (W1 & A1 & _). rewrite A1. auto.
+  - destruct (clear_post a Wa) as (W1 & A1 & _). rewrite A1. auto.
+  - destruct (clear_post b Wb) as (W1 & A1 & _). rewrite A1. auto.
+  - destruct (assign_range_post a (abs b) Wa) as (W1 & A1 & _). destruct (clear_post b Wb) as (W2 & A2 & _).
+    rewrite A1, A2. auto.
+  - destruct (assign_range_post b (abs a) Wb) as (W1 & A1 & _). destruct (clear_post a Wa) as (W2 & A2 & _).
+    rewrite A1, A2. auto.
+  - destruct (range_ctor_post (reborn a) (abs b) Wra) as (W1 & A1). rewrite A1. auto.
+  - destruct (range_ctor_post (reborn b) (abs a) Wrb) as (W1 & A1). rewrite A1. auto.
+  - rewrite Ara. auto.
+  - rewrite Arb. auto.
+  - rewrite Ara. auto.
+  - rewrite Arb. auto.
+  - destruct (assign_range_post (reborn a) (abs b) Wra) as (W1 & A1 & _). destruct (clear_post b Wb) as (W2 & A2 & _).
+    rewrite A1, A2. auto.
+  - destruct (assign_range_post (reborn b) (abs a) Wrb) as (W1 & A1 & _). destruct (clear_post a Wa) as (W2 & A2 & _).
+    rewrite A1, A2. auto.
+Qed.
+
+Lemma run2_post : forall ops p, wf2 p -> valid2 (abs2 p) ops = true ->
+  wf2 (run2 p ops) /\ abs2 (run2 p ops) = fold_left spec_step2 ops (abs2 p).
+Proof.
+  induction ops as [|o t IH]; intros p W V; cbn [RVModel.run2 fold_left valid2] in *; auto.
+  apply andb_prop in V. destruct V as [V1 V2].
+  destruct (step2_post p o W V1) as (W1 & A1).
+  rewrite <- A1 in *. apply IH; auto.
+Qed.
 
 (* ---- manager ---------------------------------------------------------------------------------------------------- *)
 Notation mcycle := (RVModel.mcycle mva mvc smv).
